@@ -1,3 +1,182 @@
 import ArrModel.C08
+import ArrProofs.Lemmas.C08Reduce
+/-!
+# C08 — axis-wise reductions and scans equal the 1-D operation on every lane
+
+Model under test: `ArrModel/AlongAxis.lean` (`applyAlongAxis` = `apply_along_axis`, `axis.rs:163-184`: move the axis
+last, ravel, `split` into lanes, apply the 1-D body, flatten, reshape, move the axis back with the `axis == 0` arm),
+`ArrModel/Split.lean`, `ArrModel/Axis.lean`, and the per-operation wrappers of `ArrModel/C08.lean`
+(`reduceAxis` for sum/prod/max/min and the NaN forms, `countAxis` for count_nonzero/argmax/argmin with `keepdims`,
+`scanAxis` for cumsum/cumprod and the NaN forms).  The 1-D body `f1` is an arbitrary parameter; the only hypothesis is
+the length of its output on a lane (one element for reductions, the lane length for scans).
+
+`laneOf a axis c` = the elements of `a` at `c` with coordinate `axis` replaced by `0, 1, …` (`laneOf_getElem?`,
+`laneOf_length`).  All statements hold for every rank, every axis, every axis length ≥ 1 (`0 ∉ a.shape`; arrays
+with a zero-length axis are covered by the differential tie only).
+-/
 namespace ArrModel.C08
+open ArrModel Arr
+variable {α β : Type}
+
+/-- **the lane theorem** (central lemma, all axes of all ranks): `apply_along_axis` with a lane function producing
+`m` elements per lane gives shape `shape[axis := m]`, and the element at `c` is element `c[axis]` of the lane function
+applied to the lane through `c`. -/
+theorem along_axis_spec (a : Arr α) (zero : α) (zb : β) (axis m : Nat) (f : Arr α → Res (Arr β))
+    (hwf : a.WF) (hax : axis < a.ndim) (hnz : 0 ∉ a.shape)
+    (hf : ∀ lane : List α, lane.length = a.shape.getD axis 0 → ∃ r, f (Arr.flat lane) = .ok r ∧ r.elems.length = m) :
+    ∃ r, a.applyAlongAxis zero zb axis f = .ok r ∧ r.shape = a.shape.set axis m ∧ r.WF ∧
+      ∀ c, inRange r.shape c = true →
+        (laneOf a axis c).length = a.shape.getD axis 0 ∧
+        (∀ j, j < a.shape.getD axis 0 → (laneOf a axis c)[j]? = a.get? (c.set axis j)) ∧
+        ∃ y, f (Arr.flat (laneOf a axis c)) = .ok y ∧ r.get? c = y.elems[c.getD axis 0]? := by
+  obtain ⟨r, h1, h2, h3, h4⟩ := applyAlongAxis_spec a zero zb axis m f hwf hax hnz hf
+  refine ⟨r, h1, h2, h3, ?_⟩
+  intro c hc
+  have hc' : inRange (a.shape.set axis m) c = true := by rw [← h2]; exact hc
+  exact ⟨laneOf_length a axis m c hwf hc', fun j hj => laneOf_getElem? a axis m c hwf hc' j hj, h4 c hc⟩
+
+/-- **reductions** (sum, prod, max, min, nan-forms): the result shape is the input shape without the axis
+(`[1]` when the input has rank 1), and the value at every position `c` of the remaining axes is the single element the
+1-D operation returns on the lane through that position. -/
+theorem reduce_spec (a : Arr α) (zero : α) (zb : β) (ax : Int) (f1 : Arr α → Res (Arr β))
+    (hwf : a.WF) (hnz : 0 ∉ a.shape) (hax : normalizeAxis a.ndim ax < a.ndim)
+    (hf : ∀ lane : List α, lane.length = a.shape.getD (normalizeAxis a.ndim ax) 0 →
+      ∃ y, f1 (Arr.flat lane) = .ok y ∧ y.elems.length = 1) :
+    ∃ r, a.reduceAxis zero zb (some ax) f1 = .ok r ∧
+      r.shape = (if a.ndim > 1 then a.shape.eraseIdx (normalizeAxis a.ndim ax) else [1]) ∧ r.WF ∧
+      ∀ c, inRange (a.shape.eraseIdx (normalizeAxis a.ndim ax)) c = true →
+        ∃ y v, f1 (Arr.flat (laneOf a (normalizeAxis a.ndim ax) (c.insertIdx (normalizeAxis a.ndim ax) 0))) = .ok y ∧
+          y.elems = [v] ∧ r.get? (if a.ndim > 1 then c else [0]) = some v := by
+  generalize haxis : normalizeAxis a.ndim ax = axis at *
+  have hax' : axis < a.shape.length := hax
+  obtain ⟨r, h1, h2, h3, h4, h5⟩ := applyAlongAxis_single a zero zb axis f1 hwf hax hnz hf
+  have hrnd : r.ndim = a.ndim := by simp [Arr.ndim, h2]
+  by_cases hnd : a.ndim > 1
+  · refine ⟨⟨r.elems, a.shape.eraseIdx axis⟩, ?_, by simp [hnd], h4, ?_⟩
+    · simp only [Arr.reduceAxis, haxis, h1, Res.bind_ok, hrnd, hnd, if_true, vecRemove, h2, List.length_set,
+        List.eraseIdx_set_eq, Arr.reshape, Arr.new, h4]
+      rw [if_neg (by omega)]; simp
+    · intro c hc
+      obtain ⟨y, v, e1, e2, e3, _⟩ := h5 c hc
+      exact ⟨y, v, e1, e2, by simpa [hnd, Arr.get?] using e3⟩
+  · have h1d : a.ndim = 1 := by omega
+    have h0 : axis = 0 := by omega
+    obtain ⟨n, hn⟩ : ∃ n, a.shape = [n] := List.length_eq_one_iff.1 h1d
+    have hrs : r.shape = [1] := by rw [h2, hn, h0]; rfl
+    refine ⟨r, ?_, by simp [hnd, hrs], h3, ?_⟩
+    · simp only [Arr.reduceAxis, haxis, h1, Res.bind_ok, hrnd, hnd, if_false, Arr.reshape, Arr.new]
+      rw [if_pos h3.symm]
+    · intro c hc
+      obtain ⟨y, v, e1, e2, e3, _⟩ := h5 c hc
+      refine ⟨y, v, e1, e2, ?_⟩
+      have hc0 : c = [] := by
+        rw [hn, h0] at hc
+        have := inRange_length _ _ hc; simpa using this
+      subst hc0
+      rw [hn, h0] at e3
+      simpa [hnd, Arr.get?, hrs, ravel] using e3
+
+/-- **count / position queries** (count_nonzero, argmax, argmin): with `keepdims = Some(true)` the axis is kept
+with length 1, otherwise it is removed; the value at every position of the remaining axes is the single element the
+1-D query returns on the lane through that position. -/
+theorem count_spec (a : Arr α) (zero : α) (zb : β) (ax : Int) (kd : Option Bool) (f1 : Arr α → Option Bool → Res (Arr β))
+    (hwf : a.WF) (hnz : 0 ∉ a.shape) (hax : normalizeAxis a.ndim ax < a.ndim)
+    (hf : ∀ lane : List α, lane.length = a.shape.getD (normalizeAxis a.ndim ax) 0 →
+      ∃ y, f1 (Arr.flat lane) kd = .ok y ∧ y.elems.length = 1) :
+    ∃ r, a.countAxis zero zb (some ax) kd f1 = .ok r ∧
+      r.shape = (if kd = some true then a.shape.set (normalizeAxis a.ndim ax) 1 else a.shape.eraseIdx (normalizeAxis a.ndim ax)) ∧
+      r.WF ∧
+      ∀ c, inRange (a.shape.eraseIdx (normalizeAxis a.ndim ax)) c = true →
+        ∃ y v, f1 (Arr.flat (laneOf a (normalizeAxis a.ndim ax) (c.insertIdx (normalizeAxis a.ndim ax) 0))) kd = .ok y ∧
+          y.elems = [v] ∧ r.get? (if kd = some true then c.insertIdx (normalizeAxis a.ndim ax) 0 else c) = some v := by
+  generalize haxis : normalizeAxis a.ndim ax = axis at *
+  have hax' : axis < a.shape.length := hax
+  obtain ⟨r, h1, h2, h3, h4, h5⟩ := applyAlongAxis_single a zero zb axis (fun arr => f1 arr kd) hwf hax hnz hf
+  by_cases hkd : kd = some true
+  · subst hkd
+    refine ⟨r, ?_, by simp [h2], h3, ?_⟩
+    · simp only [Arr.countAxis, haxis, h1, Res.bind_ok, if_true]
+    · intro c hc
+      obtain ⟨y, v, e1, e2, _, e4⟩ := h5 c hc
+      exact ⟨y, v, e1, e2, by simpa using e4⟩
+  · refine ⟨⟨r.elems, a.shape.eraseIdx axis⟩, ?_, by simp [hkd], h4, ?_⟩
+    · simp only [Arr.countAxis, haxis, h1, Res.bind_ok, hkd, if_false, vecRemove, Arr.reshape, Arr.new, h4]
+      rw [if_neg (by omega)]; simp
+    · intro c hc
+      obtain ⟨y, v, e1, e2, e3, _⟩ := h5 c hc
+      exact ⟨y, v, e1, e2, by simpa [hkd, Arr.get?] using e3⟩
+
+/-- **scans** (cumsum, cumprod, nan-forms): the shape is kept and every lane is replaced by the output of the 1-D
+scan on that lane. -/
+theorem scan_spec (a : Arr α) (zero : α) (zb : β) (ax : Int) (f1 : Arr α → Res (Arr β))
+    (hwf : a.WF) (hnz : 0 ∉ a.shape) (hax : normalizeAxis a.ndim ax < a.ndim)
+    (hf : ∀ lane : List α, lane.length = a.shape.getD (normalizeAxis a.ndim ax) 0 →
+      ∃ y, f1 (Arr.flat lane) = .ok y ∧ y.elems.length = lane.length) :
+    ∃ r, a.scanAxis zero zb (some ax) f1 = .ok r ∧ r.shape = a.shape ∧ r.WF ∧
+      ∀ c, inRange a.shape c = true →
+        ∃ y v, f1 (Arr.flat (laneOf a (normalizeAxis a.ndim ax) c)) = .ok y ∧
+          y.elems[c.getD (normalizeAxis a.ndim ax) 0]? = some v ∧ r.get? c = some v := by
+  generalize haxis : normalizeAxis a.ndim ax = axis at *
+  obtain ⟨r, h1, h2, h3, h4⟩ := applyAlongAxis_spec a zero zb axis (a.shape.getD axis 0) f1 hwf hax hnz
+    (fun lane hl => by obtain ⟨y, e1, e2⟩ := hf lane hl; exact ⟨y, e1, e2.trans hl⟩)
+  rw [set_getD_self] at h2
+  refine ⟨r, by simpa [Arr.scanAxis, haxis] using h1, h2, h3, ?_⟩
+  intro c hc
+  obtain ⟨y, e1, e2⟩ := h4 c (by rw [h2]; exact hc)
+  have hc' : inRange (a.shape.set axis (a.shape.getD axis 0)) c = true := by rw [set_getD_self]; exact hc
+  have hl := laneOf_length a axis _ c hwf hc'
+  obtain ⟨y', e3, e4⟩ := hf _ hl
+  rw [e1] at e3; cases e3
+  have hj : c.getD axis 0 < y.elems.length := by
+    rw [e4, hl]; exact inRange_getD_lt _ _ _ hc hax
+  exact ⟨y, y.elems[c.getD axis 0], e1, List.getElem?_eq_getElem hj, by rw [e2, List.getElem?_eq_getElem hj]⟩
+
+/-- **a negative axis denotes the same axis counted from the end** -/
+theorem normalize_neg_axis (nd k : Nat) (hk : k < nd) : normalizeAxis nd ((k : Int) - (nd : Int)) = k := by
+  have := C06.normalize_neg nd ((k : Int) - (nd : Int)) (by omega) (by omega)
+  omega
+
+theorem neg_axis_reduce (a : Arr α) (zero : α) (zb : β) (k : Nat) (hk : k < a.ndim) (f1 : Arr α → Res (Arr β)) :
+    a.reduceAxis zero zb (some ((k : Int) - (a.ndim : Int))) f1 = a.reduceAxis zero zb (some (k : Int)) f1 := by
+  have e : normalizeAxis a.ndim (k : Int) = k := normalizeAxis_ofNat _ _
+  simp only [Arr.reduceAxis, normalize_neg_axis a.ndim k hk, e]
+
+theorem neg_axis_count (a : Arr α) (zero : α) (zb : β) (k : Nat) (hk : k < a.ndim) (kd : Option Bool)
+    (f1 : Arr α → Option Bool → Res (Arr β)) :
+    a.countAxis zero zb (some ((k : Int) - (a.ndim : Int))) kd f1 = a.countAxis zero zb (some (k : Int)) kd f1 := by
+  have e : normalizeAxis a.ndim (k : Int) = k := normalizeAxis_ofNat _ _
+  simp only [Arr.countAxis, normalize_neg_axis a.ndim k hk, e]
+
+theorem neg_axis_scan (a : Arr α) (zero : α) (zb : β) (k : Nat) (hk : k < a.ndim) (f1 : Arr α → Res (Arr β)) :
+    a.scanAxis zero zb (some ((k : Int) - (a.ndim : Int))) f1 = a.scanAxis zero zb (some (k : Int)) f1 := by
+  have e : normalizeAxis a.ndim (k : Int) = k := normalizeAxis_ofNat _ _
+  simp only [Arr.scanAxis, normalize_neg_axis a.ndim k hk, e]
+
+/-- **with no axis the operation acts on the flattened array**: a reduction is the 1-D body on the array itself (the
+1-D bodies fold over `elements` only), a scan is the 1-D body on `ravel`.  (These two arms are the definitions of the
+wrappers; that the real code takes them is established by the differential tie.) -/
+theorem none_axis (a : Arr α) (zero : α) (zb : β) (f1 : Arr α → Res (Arr β)) (kd : Option Bool)
+    (g1 : Arr α → Option Bool → Res (Arr β)) :
+    a.reduceAxis zero zb none f1 = f1 a ∧ a.countAxis zero zb none kd g1 = g1 a kd ∧
+    a.scanAxis zero zb none f1 = f1 (Arr.flat a.elems) := ⟨rfl, rfl, rfl⟩
+
+/-- every axis number outside `-rank .. rank-1` (inside the `isize` range) normalises to something `≥ rank` … -/
+theorem normalize_out_of_range (nd : Nat) (ax : Int) (hnd : nd < 2 ^ 63) (hlo : -(2 ^ 63 : Int) ≤ ax)
+    (h : ax ≥ nd ∨ ax < -(nd : Int)) : normalizeAxis nd ax ≥ nd := by
+  unfold normalizeAxis USIZE
+  rcases h with h | h
+  · rw [if_neg (by omega)]; omega
+  · rw [if_pos (by omega)]
+    simp only
+    rw [if_pos (by omega)]
+    omega
+
+/-- … and **an out-of-range axis is refused with an error** by all three families (never a panic, never data) -/
+theorem axis_out_of_range (a : Arr α) (zero : α) (zb : β) (ax : Int) (h : normalizeAxis a.ndim ax ≥ a.ndim)
+    (f1 : Arr α → Res (Arr β)) (kd : Option Bool) (g1 : Arr α → Option Bool → Res (Arr β)) :
+    a.reduceAxis zero zb (some ax) f1 = .err .AxisOutOfBounds ∧
+    a.countAxis zero zb (some ax) kd g1 = .err .AxisOutOfBounds ∧
+    a.scanAxis zero zb (some ax) f1 = .err .AxisOutOfBounds := by
+  simp only [Arr.reduceAxis, Arr.countAxis, Arr.scanAxis, applyAlongAxis_axis_err _ _ _ _ _ h, Res.bind_err, and_self]
+
 end ArrModel.C08
